@@ -1,7 +1,7 @@
 #!/bin/bash
 # usage: tools/run_all.sh [tier] [seed]   - runs every claimed check once, prints one line each
 tier=${1:-quick}; seed=${2:-0}
-cd /verif
+cd "$(dirname "$(readlink -f "$0")")/.."
 for P in C01 C02 C03 C06 C07 C09 C10 C11 C12 C13 C15 C16 C17 C18 C19; do
   out=$(VERIF_SEED=$seed timeout 3600 ./check $P --tier $tier 2>&1); rc=$?
   echo "$P rc=$rc $(echo "$out" | grep -E "$tier:" | cut -c1-200)"
